@@ -68,6 +68,68 @@ def resolve_local(fi: FuncInfo, e: ast.AST, depth: int = 6) -> ast.AST:
     return e
 
 
+def expand_names(fi: FuncInfo, e: ast.AST, depth: int = 4) -> ast.AST:
+    """Copy of ``e`` with every single-definition local name replaced (recursively) by its defining expression."""
+    import copy
+
+    class T(ast.NodeTransformer):
+        def __init__(self, d):
+            self.d = d
+
+        def visit_Name(self, n):
+            if isinstance(n.ctx, ast.Load) and self.d > 0 and n.id not in fi.params:
+                v = single_def(fi, n.id)
+                if v is not None:
+                    return T(self.d - 1).visit(copy.deepcopy(v))
+            return n
+    return T(depth).visit(copy.deepcopy(e))
+
+
+def expand_straightline(fi: FuncInfo, e: ast.AST, at: ast.AST, limit: int = 40) -> ast.AST:
+    """Value of expression ``e`` just before statement-containing-``at``, with names replaced by the simple assignments
+    `name = value` that precede it in the same statement list (walking backwards; stops substituting a name at the
+    first compound statement that may write it).  `h = a; h = h | b; h = h | c`  ->  `a | b | c`."""
+    import copy
+    block = idx = None
+    for st in [fi.node] + fn_stmts(fi):
+        for fld in ("body", "orelse", "finalbody"):
+            body = getattr(st, fld, None)
+            if isinstance(body, list):
+                for i, s in enumerate(body):
+                    if isinstance(s, ast.stmt) and any(n is at for n in ast.walk(s)):
+                        block, idx = body, i
+    if block is None:
+        return e
+    e = copy.deepcopy(e)
+    frozen = set()
+    for s in reversed(block[:idx]):
+        names = {n.id for n in ast.walk(e) if isinstance(n, ast.Name)} - frozen
+        if not names or limit <= 0:
+            break
+        limit -= 1
+        tgt = None
+        if isinstance(s, ast.Assign) and len(s.targets) == 1 and isinstance(s.targets[0], ast.Name):
+            tgt, val = s.targets[0].id, s.value
+        elif isinstance(s, ast.AnnAssign) and isinstance(s.target, ast.Name) and s.value is not None:
+            tgt, val = s.target.id, s.value
+        elif isinstance(s, ast.AugAssign) and isinstance(s.target, ast.Name):
+            tgt = s.target.id
+            val = ast.BinOp(left=ast.Name(id=tgt, ctx=ast.Load()), op=s.op, right=s.value)
+        if tgt is not None:
+            if tgt in names:
+                class T(ast.NodeTransformer):
+                    def visit_Name(self, n, tgt=tgt, val=val):
+                        return copy.deepcopy(val) if n.id == tgt and isinstance(n.ctx, ast.Load) else n
+                e = T().visit(e)
+            continue
+        written = set()
+        for n in ast.walk(s):
+            if isinstance(n, ast.Name) and isinstance(n.ctx, (ast.Store, ast.Del)):
+                written.add(n.id)
+        frozen |= written & names
+    return ast.fix_missing_locations(e)
+
+
 def calls(fi_or_node, func_name: Optional[str] = None, *, attr: Optional[str] = None) -> Iterator[ast.Call]:
     node = fi_or_node.node if isinstance(fi_or_node, FuncInfo) else fi_or_node
     for n in walk_local(node):
